@@ -56,4 +56,10 @@ META["C13"] = {
     "technique": "exhaustive grid enumeration + property-based testing (rapid); oracle: encode/decode differential and reference RFC 9052 3.1 rules",
 }
 
+META["C09"] = {
+    "text": "Property-based exploration of decode/encode histories with an exact byte prediction computed independently from the input (reference parser), signature re-verification after every history, and a fixpoint oracle for the canonical form obtained after discarding raw bytes. Exploration is the right level: the statement quantifies over all accepted encodings and any number of cycles.",
+    "note": TRUST,
+    "technique": "property-based testing (rapid) over operation histories + rapid.MakeFuzz; oracle: byte-exact prediction from the reference parser, round-trip fixpoint, reference-signed signatures still verifying",
+}
+
 NOT_APPLICABLE = {}
